@@ -125,3 +125,11 @@ package UTO311_L0x
 //@   returns (m, err)
 //@   ensures enforced: err == nil ==> len(b) == 64 && b[0] == 0x17 && b[1] == 0x43
 //@   ensures noalias:  err == nil ==> !sameblock(m.IP, b) && len(m.MAC) == 6 && !sameblock(m.MAC, b)
+
+// the debug hex dump: assumed to return a string and not to panic (formatting loops over fmt.Sprintf
+// are outside the engine's reach); only called to build debug output
+//@ func Dump
+//@   params m, prefix
+//@   returns s
+//@   trusted
+//@   ensures nothing: true
